@@ -433,11 +433,11 @@ func c03RemoteFailure(p *Program, r *Report) {
 			continue
 		}
 		n++
-		fg := p.ig(fn)
+		fg := p.igx(fn) // the emission may live in a helper shared with the envelope handler
 		emits := map[int]bool{}
-		for _, ts := range p.tellSites(fn) {
+		for _, ts := range p.tellSitesG(fg) {
 			if isDeathLetterValue(ts.Message) {
-				if e := deathLetterEnvelope(ts.Message); e != nil && strip(e) == ssa.Value(fn.Params[1]) {
+				if e := deathLetterEnvelope(ts.Message); e != nil && fg.res(e) == ssa.Value(fn.Params[1]) {
 					emits[fg.Idx[ts.In]] = true
 				}
 			}
